@@ -231,7 +231,7 @@ func RunRequest(t *testing.T, rq *Request) *ReqOutcome {
 			cache.Cache = gocache.New(5*time.Minute, 0)
 			w := NewWire(world)
 			w.Faults = rq.Faults
-			w.MaxVirtual = 40 * time.Minute
+			w.MaxVirtual = requestWatchdog(p)
 			out.Wire = w
 			packets.SetVerifHooks(w.Hooks())
 			defer packets.SetVerifHooks(nil)
@@ -304,4 +304,21 @@ func sinkProbes(w *Wire) map[int][]*Probe {
 		}
 	}
 	return m
+}
+
+// requestWatchdog is a generous multiple of the termination bound of a request (C08), so that a request
+// that would never end is stopped (and reported) after a bounded amount of virtual time.
+func requestWatchdog(p ReqParams) time.Duration {
+	n := p.MaxTTL - p.MinTTL + 1
+	if n < 1 || n > 255 {
+		n = 255
+	}
+	timeout := time.Duration(p.TimeoutMs) * time.Millisecond
+	delay := time.Duration(p.DelayMs) * time.Millisecond
+	if delay < 50*time.Millisecond {
+		delay = 50 * time.Millisecond // the HTTP API uses the default delay
+	}
+	per := timeout + 100*time.Millisecond + delay
+	e2e := time.Duration(p.E2e) * time.Second
+	return 3*(time.Duration(n)*per+e2e) + 40*time.Second
 }
